@@ -6,7 +6,7 @@ sendLoop / continueRunningImpl / massCancelRequestsLocked / close), histories ex
 Search (exploration, not proof): end-to-end client/server runs over TCP and Unix sockets, with and without
 encryption, under the race detector (go/hrpccalls_e2e).
 """
-from checks.rpccalls_common import inpkg_harness, replay_lines, product, parse_steps
+from checks.rpccalls_common import inpkg_harness, replay_lines, product, parse_steps, compress_dist
 from checks import rpccalls_e2e
 
 MODULES = ["TLVerif.Props.C38"]
@@ -242,6 +242,7 @@ def run(c):
         lines.append("rpccalls.cc " + ",".join(ops))
     lines = list(dict.fromkeys(lines))
     res = c.tie("clientconn", lines, impl, model, nontrivial=lambda l, a: "d" in a or "x" in a)
+    compress_dist(c)
     for l, a, _ in res:
         if a == "bad-op":
             continue
